@@ -283,6 +283,19 @@ def check_corruptions(spec, ctx):
         expect_refusal(ctx, "CDSInterval:mixed_frame_phase", lambda: CDSInterval(cs_ + [ce_[-1] + 2], ce_ + [ce_[-1] + 4], S_, fr + [CDSPhase.ZERO]), valid_interval)
         expect_refusal(ctx, "CDSInterval:empty", lambda: CDSInterval([cs_[0]], [cs_[0]], S_, [CDSFrame.ZERO]), valid_interval)
         expect_refusal(ctx, "CDSInterval:unequal_lists", lambda: CDSInterval(cs_, ce_ + [ce_[-1] + 1], S_, fr), valid_interval)
+    # --- a CDS holding a codon that is not a strict codon: the lenient translation answers, the strict one refuses (documented
+    # ValueError) - on a fresh object and on the object the lenient translation was asked of just before
+    amb = spec.get("ambiguous_cds") or {"genome": "ATGGNNTTTTAA", "at": 4}
+    ag = amb["genome"]
+    def amb_cds():
+        return CDSInterval([0], [len(ag) - len(ag) % 3], Strand.PLUS, [CDSFrame.ZERO], parent_or_seq_chunk_parent=chrom_parent(ag))
+    c_len = amb_cds()
+    attempt(ctx, "CDSInterval.translate(strict=False)", lambda: c_len.translate(strict=False))
+    expect_refusal(ctx, "CDSInterval.translate:strict_after_lenient_on_the_same_object", lambda: c_len.translate(strict=True), lambda x: "strict translation answered %r" % str(x))
+    expect_refusal(ctx, "CDSInterval.translate:strict_on_a_fresh_object", lambda: amb_cds().translate(strict=True), lambda x: "strict translation answered %r" % str(x))
+    c2 = amb_cds()
+    attempt(ctx, "CDSInterval.translate(strict=False, truncate)", lambda: c2.translate(strict=False, truncate_at_in_frame_stop=True))
+    expect_refusal(ctx, "CDSInterval.has_in_frame_stop:after_lenient_translation", lambda: c2.has_in_frame_stop, lambda x: None if isinstance(x, bool) else "not a bool")
     # --- features
     fb = f["blocks"]
     expect_refusal(ctx, "FeatureInterval:unequal_lists", lambda: FeatureInterval([x[0] for x in fb], [x[1] for x in fb] + [99], STRAND[f["strand"]]), valid_interval)
@@ -293,6 +306,16 @@ def check_corruptions(spec, ctx):
     tx_ok = mktx(t)
     expect_refusal(ctx, "GeneInterval:empty", lambda: GeneInterval([]), valid_interval)
     expect_refusal(ctx, "GeneInterval:duplicate_children", lambda: GeneInterval([mktx(t), mktx(t)]), valid_interval)
+    # two DIFFERENT children that carry the same identifier (caller-supplied GUIDs that collide): one of them would become unreachable
+    import uuid as _uuid
+    same = _uuid.UUID("12345678-1234-5678-1234-567812345678")
+    t_other = dict(t, transcript_id="another", exons=[[x[0], x[1]] for x in t["exons"][:-1]] + [[t["exons"][-1][0], t["exons"][-1][1] + 1]])
+    t_other.pop("cds", None), t_other.pop("frames", None)
+    expect_refusal(ctx, "GeneInterval:different_children_same_guid", lambda: GeneInterval([mktx(t, guid=same), mktx(t_other, guid=same)]),
+                   lambda x: None if len({str(c.guid) for c in x.transcripts}) == len(x.transcripts) else "two children share a guid")
+    f_other = dict(f, feature_id="another", blocks=[[x[0], x[1]] for x in f["blocks"][:-1]] + [[f["blocks"][-1][0], f["blocks"][-1][1] + 1]])
+    expect_refusal(ctx, "FeatureIntervalCollection:different_children_same_guid", lambda: FeatureIntervalCollection([mkfeat(f, guid=same), mkfeat(f_other, guid=same)]),
+                   lambda x: None if len({str(c.guid) for c in x.feature_intervals}) == len(x.feature_intervals) else "two children share a guid")
     t_prim = dict(t, is_primary_tx=True)
     t_prim2 = dict(t, is_primary_tx=True, transcript_id="other")
     expect_refusal(ctx, "GeneInterval:two_primaries", lambda: GeneInterval([mktx(t_prim), mktx(t_prim2)]), lambda x: "accepted")
@@ -673,7 +696,12 @@ def strat_corrupt(draw, tier="quick"):
                                   st.text(alphabet="ACGT-?XZ*. 1", min_size=3, max_size=3).filter(lambda x: any(ch in "-?XZ*. 1" for ch in x))), min_size=2, max_size=5))
     bad_chars = draw(st.lists(st.tuples(st.sampled_from(["start", "middle", "end", "end"]), st.sampled_from(["\n", "\r", "\t", " ", "\x00", "\x0b", "0", "7", ".", "*", "?", "J", "O", "Z", "é", "\u00a0", "\r\n", "\n\n"]),
                                         st.sampled_from(["NT_STRICT", "NT_EXTENDED", "NT_EXTENDED_GAPPED", "NT_STRICT_GAPPED", "NT_STRICT_UNKNOWN"])).map(list), min_size=2, max_size=5))
-    return {"genome": draw(S.dna(n, n)), "tx": t, "feat": f, "a": a, "b": b, "bad_codons": bad, "bad_chars": bad_chars}
+    ncod = draw(st.integers(2, 5))
+    cods = [draw(st.sampled_from(["ATG", "GCT", "TTT", "CCA", "GGA"])) for _ in range(ncod)]
+    at = draw(st.integers(1, ncod - 1))          # never the first codon (that one is subject to the start-codon rule)
+    cods[at] = draw(st.sampled_from(["GNN", "NNN", "GCN", "ANT", "RYK", "NTG"]))
+    return {"genome": draw(S.dna(n, n)), "tx": t, "feat": f, "a": a, "b": b, "bad_codons": bad, "bad_chars": bad_chars,
+            "ambiguous_cds": {"genome": "".join(cods) + draw(st.sampled_from(["", "T", "TA"])), "at": at}}
 
 
 @st.composite
